@@ -170,7 +170,7 @@ pub fn term_child_main() -> ! {
     };
     let plain = emit_term::stdout().colored(false);
     let coloured = emit_term::stdout().colored(true);
-    ev.with_event(|evt| plain.emit(evt));
+    ev.emit_to(&plain);
     {
         let mut so = std::io::stdout().lock();
         let _ = so.write_all(TERM_SEP.as_bytes());
@@ -178,7 +178,7 @@ pub fn term_child_main() -> ! {
     }
     // emit_term caches its buffer (and with it the colour mode) per thread: use a fresh thread
     let ev2 = ev.clone();
-    let t = std::thread::spawn(move || ev2.with_event(|evt| coloured.emit(evt)));
+    let t = std::thread::spawn(move || ev2.emit_to(&coloured));
     if t.join().is_err() {
         std::process::exit(101);
     }
